@@ -95,7 +95,8 @@ CONFIGS["C31"] = dict(
                "flush / close-and-reopen / time advance / cache purge applied to the real file-backed and the real "
                "database-backed user store side by side (the latter with the real AuthCache and its sweeper on the fake "
                "clock); after every operation both stores must answer identically (values and error/no-error) and like a "
-               "plain map; after flush + close + reopen the answers must be unchanged.",
+               "plain map; after flush + close + reopen the answers must be unchanged, including a write made by a second "
+               "client task while the first is inside Flush (scheduler-chosen interleaving).",
     technique="differential reference-model refinement over seeded histories with fake clock and reopen",
     rewrite=dict(dirs=ALL_INTERNAL, consts=BCRYPT_KNOB),
     extra_files=[CACHES_EXPORT],
